@@ -110,11 +110,13 @@ func (p *BaseParty) advance() {
 }
 
 func (p *BaseParty) lock() {
+	simYield(p, "lock")
 	p.mtx.Lock()
 }
 
 func (p *BaseParty) unlock() {
 	p.mtx.Unlock()
+	simYield(p, "unlock")
 }
 
 func (p *BaseParty) setStoredEarly() {
